@@ -127,9 +127,10 @@ deriving Repr, Inhabited
 
 structure ClsE where
   props : List PropE
-  copyDeep : Bool          -- `mk_copy()` / `copy.copy` shares nothing with the source
+  copyDeep : Bool          -- `mk_copy()` (containers) / `copy.copy` (data types) shares nothing with the source
   deepOk : Bool            -- `copy.deepcopy` shares nothing with the source
   updDeep : Bool           -- `update_from_other_container` copies property values deeply
+  isContainer : Bool       -- a `ContainerBase` class: `mk_copy` and `update_from_other_container` are library operations
 deriving Repr, Inhabited
 
 abbrev Table := List ClsE
@@ -144,16 +145,19 @@ def GetMode.ok : GetMode → Bool
 
 def PropE.ok (p : PropE) : Bool := p.ctor.ok && p.absent.ok && p.get.ok
 
-def ClsE.ok (c : ClsE) : Bool := c.props.all PropE.ok && c.deepOk
+def ClsE.ok (c : ClsE) : Bool := c.props.all PropE.ok && c.deepOk && (!c.isContainer || (c.copyDeep && c.updDeep))
 
-/-- the decidable side condition on the generated table: no descriptor ever hands out a class-level object -/
+/-- the decidable side condition on the generated table: no descriptor ever hands out a class-level object, and the
+    copy operations of the library (`deepcopy` inside `init_instance_data`, `mk_copy`, `update_from_other_container`)
+    share nothing with their source. (`copy.copy` of a data type is the caller's shallow copy and may share.) -/
 def tableOK (T : Table) : Bool := T.all ClsE.ok
 
 /-! ## state and operations -/
 
 structure Inst where
   cls : Nat
-  grp : Nat                -- instances with different `grp` were obtained independently of each other
+  grp : Nat                -- instances with different `grp` were obtained independently of each other: a new group
+                           -- for `cls()`, `from_node`, `deepcopy`, a deep `mk_copy`; the source's group for a shallow copy
   tree : Tree
 deriving Repr, Inhabited
 
@@ -322,7 +326,7 @@ def step (T : Table) (s : St) : Op → Option St
     | some ⟨c, g, .obj r ks⟩ =>
       if clsFlag T c (·.copyDeep) then
         let q := (Tree.obj r ks).fresh s.next
-        some { s with insts := s.insts ++ [⟨c, g, q.1⟩], next := q.2 }
+        some { s with insts := s.insts ++ [⟨c, s.insts.length, q.1⟩], next := q.2 }
       else some { s with insts := s.insts ++ [⟨c, g, .obj s.next ks⟩], next := s.next + 1 }
     | _ => none
   | .deepcopy i => match s.insts[i]? with
@@ -353,7 +357,8 @@ def step (T : Table) (s : St) : Op → Option St
     | some a, some b => match a.tree, b.tree, T[a.cls]? with
       | .obj ra _, .obj rb _, some ce =>
         if a.cls = b.cls then
-          let s0 := { s with insts := relabel a.grp b.grp s.insts }
+          -- a shallow update links the two instances (they share objects afterwards); a deep one does not
+          let s0 := if ce.updDeep then s else { s with insts := relabel a.grp b.grp s.insts }
           some (updProps ce.updDeep ra rb j skip s0 0 ce.props)
         else none
       | _, _, _ => none
